@@ -58,6 +58,8 @@ TEMPLATES = {
                      ["Traceback (most recent call last):", "    ...", "ValueError: see the docs."], ('raise', 'ValueError', 'bad value 3.5', 'type_agrees')),
     # an inline -REQUIRES lifts the requirement for its own statement only
     'req_inline_off': (["print('r{k}' + (mark({k}) or ''))  # xdoctest: -REQUIRES(module:%s)" % MISSING], ["r{k}"], ('out', "r{k}\n", 'lift_requires')),
+    # an inline -SKIP lifts a persistent SKIP for its own statement only
+    'skip_inline_off': (["print('o{k}' + (mark({k}) or ''))  # xdoctest: -SKIP"], ["o{k}"], ('out', "o{k}\n", 'lift_skip')),
     # two conditions, the first met, the second not
     'req_on2':      (["# xdoctest: +REQUIRES(module:os, module:%s)" % MISSING], None, ('dir', 'REQUIRES', True)),
     # a want that reaches back over everything printed without a want since the last CHECKED want (even across an ignored want)
@@ -91,7 +93,7 @@ def build(seq):
                 skip = beh[2]
             else:
                 requires = beh[2]
-        runs = not skip and not (requires and name != 'req_inline_off') and name != 'skip_inline'
+        runs = not (skip and name != 'skip_inline_off') and not (requires and name != 'req_inline_off') and name != 'skip_inline'
         fmt = dict(k=k, v=str(k + 100), shared=shared, acc=acc)
         for ln in src:
             lines.append(('>>> ' if ln is src[0] else '... ') + ln.format(**fmt))
@@ -134,7 +136,7 @@ def oracle(parts, table):
     for px, part in enumerate(parts):
         ks = statements_of(part, table)
         # C04: a directive on its own line persists; an inline one covers its own statement only
-        inline_skip = lift = ignore_want = False
+        inline_skip = lift = lift_skip = ignore_want = False
         for k in ks:
             name, beh, _ = table[k]
             if beh[0] == 'dir':
@@ -146,12 +148,14 @@ def oracle(parts, table):
                 inline_skip = True
             elif 'lift_requires' in beh:
                 lift = True
+            elif 'lift_skip' in beh:
+                lift_skip = True
             elif beh[0] == 'bad_directive':
                 return verdict(True, px, None)
             elif 'ignore_want' in beh:
                 ignore_want = True
         code_ks = [k for k in ks if table[k][1][0] != 'dir']
-        if skip or (requires and not lift) or inline_skip or not code_ks:
+        if (skip and not lift_skip) or (requires and not lift) or inline_skip or not code_ks:
             n_skipped += 1
             continue
         # C09: an error found when the part is compiled fails the doctest; nothing of the part runs
